@@ -1,0 +1,48 @@
+//go:build verif
+
+package tensor
+
+// C06 / C07 / C16: operand preparation decides between the flat (storage-order) kernels and the iterator kernels.
+// The flat kernels pair storage positions, so they may only be chosen when every tensor involved is contiguous,
+// untransposed, unmasked and in the same data order (comment-only).
+
+//@ func tensor.Dense.Iterator
+//@   trusted
+//@   ensures [some] !isnil(result)
+//@   assigns nothing
+
+// flatOK(t): storage order is logical order for t (single elements are always fine)
+//@ spec flatOK(t) bool = len(t.Raw) / rsize(t.t) == 1 || ((t.AP.o & NonContiguous) == DataOrder(0) && apIsZero(t.old) && len(t.mask) != len(t.Raw) / rsize(t.t))
+//@ spec sameOrder(a, b) bool = (a.AP.o & ColMajor) == (b.AP.o & ColMajor)
+
+//@ func tensor.prepDataVV
+//@   props C06 C07 C16
+//@   config devirt tensor.Tensor=*tensor.Dense
+//@   requires [dyn] typeis(a, "*tensor.Dense") && typeis(b, "*tensor.Dense") && (isnil(reuse) || typeis(reuse, "*tensor.Dense"))
+//@   ensures [flat_layout] err == nil && !useIter ==> flatOK(asptr("tensor.Dense", a)) && flatOK(asptr("tensor.Dense", b)) && (!isnil(reuse) ==> flatOK(asptr("tensor.Dense", reuse)))
+//@   ensures [flat_same_order] err == nil && !useIter ==> sameOrder(asptr("tensor.Dense", a), asptr("tensor.Dense", b)) && (!isnil(reuse) ==> sameOrder(asptr("tensor.Dense", a), asptr("tensor.Dense", reuse)) && sameOrder(asptr("tensor.Dense", b), asptr("tensor.Dense", reuse)))
+//@   ensures [iterators] err == nil && useIter ==> !isnil(ait) && !isnil(bit) && (!isnil(reuse) ==> !isnil(iit))
+//@   ensures [no_swap] !swap && err == nil
+//@   assigns nothing
+
+//@ func tensor.scalarToHeader
+//@   trusted
+//@   assigns nothing
+
+//@ func tensor.prepDataVS
+//@   props C06 C07 C16
+//@   config devirt tensor.Tensor=*tensor.Dense
+//@   requires [dyn] typeis(a, "*tensor.Dense") && (isnil(reuse) || typeis(reuse, "*tensor.Dense"))
+//@   ensures [flat_layout] err == nil && !useIter && len(asptr("tensor.Dense", a).shape) > 0 ==> flatOK(asptr("tensor.Dense", a)) && (!isnil(reuse) ==> flatOK(asptr("tensor.Dense", reuse)))
+//@   ensures [flat_same_order] err == nil && !useIter && len(asptr("tensor.Dense", a).shape) > 0 && !isnil(reuse) ==> sameOrder(asptr("tensor.Dense", a), asptr("tensor.Dense", reuse))
+//@   ensures [iterators] err == nil && useIter ==> !isnil(ait) && (!isnil(reuse) ==> !isnil(iit))
+//@   assigns nothing
+
+//@ func tensor.prepDataSV
+//@   props C06 C07 C16
+//@   config devirt tensor.Tensor=*tensor.Dense
+//@   requires [dyn] typeis(b, "*tensor.Dense") && (isnil(reuse) || typeis(reuse, "*tensor.Dense"))
+//@   ensures [flat_layout] err == nil && !useIter && len(asptr("tensor.Dense", b).shape) > 0 ==> flatOK(asptr("tensor.Dense", b)) && (!isnil(reuse) ==> flatOK(asptr("tensor.Dense", reuse)))
+//@   ensures [flat_same_order] err == nil && !useIter && len(asptr("tensor.Dense", b).shape) > 0 && !isnil(reuse) ==> sameOrder(asptr("tensor.Dense", b), asptr("tensor.Dense", reuse))
+//@   ensures [iterators] err == nil && useIter ==> !isnil(bit) && (!isnil(reuse) ==> !isnil(iit))
+//@   assigns nothing
